@@ -255,6 +255,54 @@ class Conv:
         raise Fail("string form: %s" % tm.show(v)[:60])
 
 
+def _hexstr_bits(c, v):
+    """A string of lower-case hexadecimal digits as bits (first character = highest nibble): format(x, "0Wx") with the value
+    fitting its field, bytes.hex(), concatenation / join with the empty separator, slices, literal digits."""
+    v = _unfz(v)
+    if isinstance(v, str):
+        if set(v) - set("0123456789abcdef"):
+            raise Fail("not a lower-case hex string")
+        return [b for ch in reversed(v) for b in _const_bits(int(ch, 16), 4)]
+    if not isinstance(v, T):
+        raise Fail("not a string")
+    op, a = v.op, v.args
+    if op == "scat":
+        out = []
+        for part in reversed(a):
+            out = out + _hexstr_bits(c, part)
+        return out
+    if op == "fmt" and isinstance(a[1], str) and a[1].endswith("x") and a[1].startswith("0") and a[1][1:-1].isdigit() and a[2] == -1:
+        w = 4 * int(a[1][1:-1])
+        bits = c.int_bits(a[0])
+        if len(_trim(bits)) > w:
+            raise Fail("value wider than its field")
+        return (bits + [0] * w)[:w]
+    if op == "hex":
+        return c.bytes_bits(a[0])
+    if op == "slice" and (a[1] is None or _is_int(a[1])) and (a[2] is None or _is_int(a[2])):
+        sb = _hexstr_bits(c, a[0])
+        n = len(sb) // 4
+        lo, hi, _ = slice(a[1], a[2]).indices(n)
+        if hi <= lo:
+            return []
+        return sb[4 * (n - hi): 4 * (n - lo)]
+    if op == "join" and a[0] == "":
+        lst = _unfz(a[1])
+        if isinstance(lst, (list, tuple)):
+            return _hexstr_bits(c, tm.scat(list(lst)))
+    raise Fail("hex string form: %s" % tm.show(v)[:60])
+
+
+def text_bits(v, width_of, radix):
+    """Bits (not trimmed: the digit count matters) of a string of binary (radix 2) or lower-case hexadecimal (radix 16) digits;
+    None when the term has no such form."""
+    c = Conv(width_of)
+    try:
+        return c.str_bits(v) if radix == 2 else _hexstr_bits(c, v)
+    except (Fail, RecursionError):
+        return None
+
+
 def int_bits(v, width_of):
     try:
         return _trim(Conv(width_of).int_bits(v))
